@@ -13,7 +13,7 @@ from vf.xmodel import Schema, Rop, build_api, build_loader
 
 SHARDS = {'quick': 16, 'thorough': 32}
 TIMEOUT = {'quick': 900, 'thorough': 5400}
-MUST_HIT = ['SortOracle.after-edit-history', 'SortOracle.mixed-subset-termination', 'SortOracle.chains', 'SortOracle.ring', 'StepBudget.guarded-calls', 'SortOracle.subset-termination']
+MUST_HIT = ['SortOracle.other-reflexive-associations', 'SortOracle.after-edit-history', 'SortOracle.mixed-subset-termination', 'SortOracle.chains', 'SortOracle.ring', 'StepBudget.guarded-calls', 'SortOracle.subset-termination']
 MUST_REACH = ['xtuml/meta.py:sort_reflexive', 'xtuml/meta.py:sort_reflexive.<locals>.sequence_generator']
 ANCHORS = MUST_REACH
 MIN_NONTRIVIAL = {'quick': 500, 'thorough': 500}
@@ -21,7 +21,9 @@ RULE = ('exhaustive: every arrangement of n <= N instances (N=5 quick, 7 thoroug
         'ordered chains (every partition, every order within a chain; labels are creation order, so '
         'every creation order relative to succession occurs), sorted across both phrases, with the '
         'set handed over in creation order and in a rotated order; every ring over n <= N instances '
-        'in every cyclic order and every rotation of the set; random sets of up to 300 instances; '
+        'in every cyclic order and every rotation of the set; random sets of up to 300 instances; the class '
+        'alternately has only R1 or three reflexive associations (declared in varying order, the other two carrying '
+        'unrelated chains, one with the same phrase pair); '
         'arbitrary subsets of chains/rings for termination only, and - exhaustively for n <= 4 (quick) / 5 (thorough) - every population mixing chains and rings with every subset in two orders (termination and membership only). Non-trivial = at least one chain of '
         'two or more members; enumerated arrangements are distinct by construction.')
 ASSUMPTIONS = ['the order among different chains in the result is not specified and not compared']
@@ -33,9 +35,19 @@ LEVEL_NOTE = 'Trusted: the direct oracle in vf/checks/c16.py; navigate_one is wr
 TECHNIQUE = 'runtime monitoring: direct order oracle + step-budget failpoint on navigate_one over exhaustive chain/ring arrangements'
 
 
-def schema():
-    return Schema([('P', [('Id', 'UNIQUE_ID'), ('Next_Id', 'UNIQUE_ID'), ('N', 'INTEGER')])],
-                  [Rop(1, 'P', ['Next_Id'], '1C', 'precedes', 'P', ['Id'], '1C', 'succeeds')])
+ROPS = {1: lambda: Rop(1, 'P', ['Next_Id'], '1C', 'precedes', 'P', ['Id'], '1C', 'succeeds'),
+        # two more reflexive associations of the same class (one with the same phrase pair): they carry
+        # other chains and must not influence a sort across R1, wherever they are declared
+        2: lambda: Rop(2, 'P', ['Alt_Id'], '1C', 'leads', 'P', ['Id'], '1C', 'follows'),
+        3: lambda: Rop(3, 'P', ['Twin_Id'], '1C', 'precedes', 'P', ['Id'], '1C', 'succeeds')}
+DECLARATION_ORDERS = ((1,), (1, 2, 3), (2, 1, 3), (3, 2, 1), (1,), (2, 3, 1))
+_builds = [0]
+
+
+def schema(order=(1,)):
+    return Schema([('P', [('Id', 'UNIQUE_ID'), ('Next_Id', 'UNIQUE_ID'), ('N', 'INTEGER'),
+                          ('Alt_Id', 'UNIQUE_ID'), ('Twin_Id', 'UNIQUE_ID')])],
+                  [ROPS[r]() for r in order])
 
 
 class Mismatch(Exception):
@@ -86,14 +98,27 @@ def arrangements(n):
 
 def build(n, chains, ring, route):
     import xtuml
-    m = build_api(schema()) if route == 'api' else build_loader(schema())
+    _builds[0] += 1
+    order = DECLARATION_ORDERS[_builds[0] % len(DECLARATION_ORDERS)]
+    sch = schema(order)
+    m = build_api(sch) if route == 'api' else build_loader(sch)
     insts = [m.new('P', N=i) for i in range(n)]
     for chain in chains:
         for a, b in zip(chain, chain[1:]):
             xtuml.relate(insts[a], insts[b], 1, 'precedes')
         if ring and len(chain) >= 1:
             xtuml.relate(insts[chain[-1]], insts[chain[0]], 1, 'precedes')
+    if 2 in order:
+        # R2: one chain in reverse creation order; R3: the even and the odd members as two chains
+        for i in range(n - 1, 0, -1):
+            xtuml.relate(insts[i], insts[i - 1], 2, 'leads')
+        for i in range(n - 2):
+            xtuml.relate(insts[i], insts[i + 2], 3, 'precedes')
+        HITS['other-reflexive-associations'] = HITS.get('other-reflexive-associations', 0) + 1
     return m, insts
+
+
+HITS = {}
 
 
 def call_sort(budget, qs, n, phrase):
@@ -323,3 +348,5 @@ def run(ctx):
         except Mismatch as e:
             ctx.violation(e.key, e.what, case=dict(kind='random', n=n, arrangement=chains, order=order))
     ctx.hit('StepBudget.guarded-calls', budget.guarded)
+    for k, v in HITS.items():
+        ctx.hit('SortOracle.' + k, v)
